@@ -147,6 +147,9 @@ LayerImpl(ev, post, prm) ==
                   /\ \A i \in MemIdx(g, gt[r].cid) :
                        post.ids.l[i] = (IF tp.nfin > 1 THEN LayerId(off, r, LabOf(d[i].h)) ELSE g[i]))
       ELSE {}) \cup
+     Chk("I_BestGmmDelta", \A j \in Idx(ev.taps.gmm) :
+            LET sl == ev.taps.gmm[j].sel IN
+            (sl.mode = "delta" /\ sl.exact /\ Len(sl.ab10) >= 1 /\ BestDeltaClear(sl.ab10, sl.gain100)) => sl.best = BestDelta(sl.ab10, sl.gain100)) \cup
      Chk("I_UnsplitKeepGid", \A r \in Idx(gt) : gt[r].x < 2 =>
                                 \A i \in MemIdx(g, gt[r].cid) : post.ids.l[i] = g[i])
 LayerMarks(ev, post, prm) ==
@@ -154,6 +157,7 @@ LayerMarks(ev, post, prm) ==
   Mark("N_split", \E r \in Idx(gt) : gt[r].x >= 2) \cup
   Mark("N_split3", \E r \in Idx(gt) : gt[r].x >= 3) \cup
   Mark("N_gmm1", \E r \in Idx(gt) : gt[r].x = 1) \cup
+  Mark("N_bestgmm", \E j \in Idx(ev.taps.gmm) : LET sl == ev.taps.gmm[j].sel IN sl.mode = "delta" /\ sl.exact /\ Len(sl.ab10) >= 2 /\ BestDeltaClear(sl.ab10, sl.gain100)) \cup
   Mark("N_remerged", \E j \in Idx(ev.taps.gmm) : ev.taps.gmm[j].nraw > ev.taps.gmm[j].nfin) \cup
   Mark("N_noremerge", \E r \in Idx(gt) : NoRemerge(ev, post, prm)[r])
 
